@@ -78,9 +78,21 @@ def extent_check(res, lc: LaunchCtx, a, spec):
             d_ = fs.dims[int(m_.group(2))]
             nm = d_ if isinstance(d_, str) else str(d_)
       if nm is None and "max(" in txt:
-        # max(a, b, ...) covers every listed extent
+        # max(a, b, ...) covers every listed extent; when every argument is a plain model dimension (or a constant) the
+        # list is complete, so a dimension that is neither listed nor dominated by a listed one (nq >= nv) is NOT covered
         if isinstance(dim, str) and ("." + dim) in txt:
           nm = dim
+        else:
+          import ast as _ast
+
+          try:
+            node = _ast.parse(txt, mode="eval").body
+          except SyntaxError:
+            node = None
+          if isinstance(node, _ast.Call) and isinstance(node.func, _ast.Name) and node.func.id == "max" and all(isinstance(x, _ast.Constant) or (isinstance(x, _ast.Attribute) and isinstance(x.value, _ast.Name) and x.value.id in ("m", "d")) for x in node.args):
+            names = [x.attr for x in node.args if isinstance(x, _ast.Attribute)]
+            dom = [n_ for n_ in names if (n_, dim) in reset_tables.INVARIANTS_GE]
+            nm = dim if dom else ("max(" + ",".join(names) + ")")
       bounds.append((f"launch extent {txt}", nm))
     else:
       continue
